@@ -221,3 +221,76 @@ Fixpoint fail_idx {X} (ok : X -> bool) (k : nat) (l : list X) : list nat :=
   end.
 Definition failing_calls (t : table) : list nat := fail_idx (call_ok (t_sigs t)) 0%nat (t_calls t).
 Definition failing_reads (t : table) : list nat := fail_idx (read_ok (t_classes t) (t_ext t)) 0%nat (t_reads t).
+
+(* ------------------------------------------------------------------------------------------- *)
+(** * (iv) batch sizes handed to the torch data loaders (FlowModel.prep_data / check_batch_size) *)
+
+Inductive bs_spec := BSint (b : Z) | BSall | BSother.      (* an int; 'all' or None; anything else *)
+
+Definition resolve_batch_size (s : bs_spec) (n_train : Z) : option Z :=
+  match s with BSint b => Some b | BSall => Some n_train | BSother => None end.
+
+(* the `while True` loop of check_batch_size; None = RuntimeError / ZeroDivisionError *)
+Fixpoint cbs_loop (fuel : nat) (n bs min_bs : Z) : option Z :=
+  match fuel with
+  | O => None
+  | S f =>
+    let bs' := bs - 1 in
+    if bs' <? 2 then None
+    else let final := n mod bs' in
+         if (final =? 0) || (final >=? min_bs) then Some bs'
+         else if (bs' <=? min_bs) && (final >? 1) then Some bs'
+         else cbs_loop f n bs' min_bs
+  end.
+
+(* FlowModel.check_batch_size(x, batch_size) for len(x) = n >= 0, batch_size >= 0; int(0.1 * bs) = bs / 10 *)
+Definition check_batch_size (n bs : Z) : option Z :=
+  if bs =? 1 then None                                   (* Cannot use a batch size of 1 *)
+  else if bs =? 0 then None                              (* n % 0 *)
+  else let min_bs := bs / 10 in
+       let final := n mod bs in
+       if negb (final =? 0) && (final <? min_bs) then cbs_loop (Z.to_nat bs) n bs min_bs else Some bs.
+
+(* val_batch_size = min(len(x_val), batch_size) if len(x_val) else None *)
+Definition val_batch_size (n_val bs : Z) : option Z :=
+  if n_val =? 0 then None else Some (Z.min n_val bs).
+
+(* what torch.utils.data.DataLoader accepts for batch_size: None or a positive integer *)
+Definition loader_ok (o : option Z) : Prop := match o with None => True | Some b => 1 <= b end.
+Definition loader_okb (o : option Z) : bool := match o with None => true | Some b => 1 <=? b end.
+
+(* batch sizes of the (train, validation) loaders; None = the configuration is rejected (an exception) *)
+Definition data_loaders (vbs : Z -> Z -> option Z) (n_train n_val : Z) (s : bs_spec) : option (Z * option Z) :=
+  match resolve_batch_size s n_train with
+  | None => None
+  | Some bs0 => match check_batch_size n_train bs0 with
+                | None => None
+                | Some b => let v := vbs n_val b in if loader_okb v then Some (b, v) else None
+                end
+  end.
+
+(* ------------------------------------------------------------------------------------------- *)
+(** * (v) emptiness guards of one pass of a population loop
+   LShrink : the batch is replaced by a subset of itself (backward pass, truncation) - may become empty
+   LGuard  : `if not len(x): continue`
+   LReduce : a reduction that raises on an empty array (max / nanmax / min / argmax ...) *)
+Inductive lev := LShrink | LGuard | LReduce.
+Inductive rres := RFinished | RSkipped | RError.
+
+Fixpoint exec_pass (p : list lev) (size : nat) (o : nat -> nat) (k : nat) : rres :=
+  match p with
+  | [] => RFinished
+  | LShrink :: r => exec_pass r (Nat.min size (o k)) o (S k)
+  | LGuard :: r => if Nat.eqb size 0 then RSkipped else exec_pass r size o k
+  | LReduce :: r => if Nat.eqb size 0 then RError else exec_pass r size o k
+  end.
+
+Fixpoint guarded (p : list lev) (nonempty : bool) : bool :=
+  match p with
+  | [] => true
+  | LShrink :: r => guarded r false
+  | LGuard :: r => guarded r true
+  | LReduce :: r => nonempty && guarded r nonempty
+  end.
+
+Definition paths_guarded (ps : list (list lev)) : bool := forallb (fun p => guarded p false) ps.
